@@ -3,8 +3,8 @@ from __future__ import annotations
 
 import ast
 
-from ..interp import site_of
-from ..model import AnalysisError, norm_stmt
+from ..interp import Env, Hooks, Interp, guard, site_of
+from ..model import AnalysisError, norm_stmt, walk_no_nested
 from ..report import Ctx
 from . import sector
 
@@ -133,11 +133,131 @@ def facts_to_obs(ctx: Ctx, facts, mapping) -> None:
         ctx.ob(r, f.site, f.what, f.ok, f.detail, key=f.key, facts=f.facts)
 
 
+def _r056_xcube_axes(ctx: Ctx) -> None:
+    """XCubeMatchingDecoder treats the three lattice axes with one piece of code parametrised by the projection axis.
+    Every lattice extent used for axis a must be the extent OF axis a (and helpers working in the plane orthogonal to
+    a get the extents of the two other axes, in order): on a cubic lattice a mix-up is invisible, on Lx != Ly != Lz it
+    indexes qubits that do not exist."""
+    m = ctx.model
+    ci = m.cls('XCubeMatchingDecoder')
+    mi = ci.module
+    AXES = ('x', 'y', 'z')
+    SIZE = {'Lx': 'x', 'Ly': 'y', 'Lz': 'z'}
+
+    def size_names(fn):
+        # `Lx, Ly, Lz = <...>.size`
+        for n in walk_no_nested(fn):
+            if isinstance(n, ast.Assign) and isinstance(n.targets[0], ast.Tuple) and len(n.targets[0].elts) == 3 \
+                    and isinstance(n.value, ast.Attribute) and n.value.attr == 'size':
+                return {e.id: a for e, a in zip(n.targets[0].elts, AXES) if isinstance(e, ast.Name)}
+        return {}
+
+    def tags(expr, names, env_extra, fn):
+        """Axes of the extents an expression evaluates to (lattice extents are replaced by their axis letter)."""
+        it = Interp(m, Hooks())
+        e = Env(mi)
+        e.vars.update(names)
+        e.vars.update(env_extra)
+        outs = guard('R05.6', mi, fn)(lambda: it.explore(lambda: it.ev(expr, e)))
+        if len(outs) != 1 or outs[0].kind != 'return':
+            raise AnalysisError('R05.6', site_of(mi, expr), f'extent expression {ast.unparse(expr)} not evaluated: {outs!r}')
+        v = outs[0].value
+        if isinstance(v, str):
+            return (v,)
+        if isinstance(v, (tuple, list)) and all(isinstance(x, str) and x in AXES for x in v):
+            return tuple(v)
+        raise AnalysisError('R05.6', site_of(mi, expr), f'extent expression {ast.unparse(expr)} evaluates to {v!r}')
+
+    init = ci.methods.get('__init__')
+    dec = ci.methods.get('decode')
+    ctx.need(init is not None and dec is not None, 'R05.6', site_of(mi, ci.node), 'XCubeMatchingDecoder.__init__/decode not found')
+    # (1) the auxiliary 2-D codes
+    names = size_names(init)
+    ctx.need(len(names) == 3, 'R05.6', site_of(mi, init), 'Lx, Ly, Lz = code.size not found in __init__')
+    found = 0
+    for n in ast.walk(init):
+        if isinstance(n, ast.Dict) and n.keys and all(isinstance(k, ast.Constant) and k.value in AXES for k in n.keys) \
+                and all(isinstance(v, ast.Call) and v.args and isinstance(v.func, ast.Name)
+                        and (m.resolve(mi, v.func.id) or ('',))[0] == 'class' for v in n.values):
+            for k, v in zip(n.keys, n.values):
+                got = tuple(t for a in v.args for t in tags(a, names, {}, init))
+                want = tuple(a for a in AXES if a != k.value)
+                found += 1
+                ctx.ob('R05.6', site_of(mi, v), f"XCubeMatchingDecoder: the 2-D code of the planes normal to {k.value} has the "
+                                                f"extents of the two other axes", got == want,
+                       f'{ast.unparse(v)} uses the extents of axes {got}, expected {want}', key=f'XCube|toric_code[{k.value}]',
+                       facts=got)
+    ctx.need(found == 3, 'R05.6', site_of(mi, init), f'auxiliary 2-D codes: {found} entries recognised')
+    # (2) decode: plane indices, L_proj, helpers called inside the loop over the projection axis
+    names = size_names(dec)
+    ctx.need(len(names) == 3, 'R05.6', site_of(mi, dec), 'Lx, Ly, Lz = self.code.size not found in decode')
+    found = 0
+    for n in ast.walk(dec):
+        if isinstance(n, ast.Dict) and n.keys and all(isinstance(k, ast.Constant) and k.value in AXES for k in n.keys) \
+                and all(isinstance(v, ast.DictComp) for v in n.values):
+            for k, v in zip(n.keys, n.values):
+                used = tuple(sorted({names[x.id] for x in ast.walk(v.generators[0].iter) if isinstance(x, ast.Name) and x.id in names}))
+                found += 1
+                ctx.ob('R05.6', site_of(mi, v), f'XCubeMatchingDecoder.decode: planes normal to {k.value} are indexed along {k.value}',
+                       used == (k.value,), f'{ast.unparse(v.generators[0].iter)} ranges over the extent of {used}',
+                       key=f'XCube|planes[{k.value}]', facts=used)
+    ctx.need(found == 3, 'R05.6', site_of(mi, dec), f'plane tables: {found} entries recognised')
+    loops = [n for n in ast.walk(dec) if isinstance(n, ast.For) and isinstance(n.target, ast.Name)
+             and isinstance(n.iter, (ast.List, ast.Tuple)) and [getattr(e, 'value', None) for e in n.iter.elts] == list(AXES)
+             and any(isinstance(c, ast.Call) and ast.unparse(c.func) == 'decode_plane' for c in ast.walk(n))]
+    ctx.need(len(loops) == 1, 'R05.6', site_of(mi, dec), 'loop over the projection axis not found')
+    loop = loops[0]
+    lv = loop.target.id
+    # straight-line definitions at the top of the loop body (proj_axis_int, ortho_axes, L_proj ...)
+    pre = {}
+    for n in ast.walk(dec):
+        if isinstance(n, ast.Assign) and isinstance(n.targets[0], ast.Name) and isinstance(n.value, ast.Dict) \
+                and all(isinstance(k, ast.Constant) for k in n.value.keys):
+            try:
+                pre[n.targets[0].id] = ast.literal_eval(n.value)
+            except ValueError:
+                pass
+    sized_calls = [c for c in ast.walk(loop) if isinstance(c, ast.Call) and ast.unparse(c.func) == 'decode_plane']
+    lproj = [s_ for s_ in loop.body if isinstance(s_, ast.Assign) and isinstance(s_.targets[0], ast.Name)
+             and any(isinstance(x, ast.Name) and x.id in names for x in ast.walk(s_.value))]
+    for axis in AXES:
+        env_extra = dict(pre)
+        env_extra[lv] = axis
+        it = Interp(m, Hooks())
+        e = Env(mi)
+        e.vars.update(names)
+        e.vars.update(env_extra)
+        for s_ in loop.body:             # the leading assignments of the loop body, in order
+            if isinstance(s_, ast.Assign) and isinstance(s_.targets[0], ast.Name):
+                outs = guard('R05.6', mi, dec)(lambda: it.explore(lambda: it.ev(s_.value, e)))
+                if len(outs) == 1 and outs[0].kind == 'return':
+                    e.vars[s_.targets[0].id] = outs[0].value
+            else:
+                break
+        local = {k: v for k, v in e.vars.items() if k not in names}
+        for s_ in lproj:
+            got = tags(s_.value, names, local, dec)
+            if len(got) == 1:
+                ctx.ob('R05.6', site_of(mi, s_), f'XCubeMatchingDecoder.decode: {s_.targets[0].id} for projection axis {axis} is '
+                                                 f'the extent along {axis}', got == (axis,),
+                       f'{norm_stmt(s_)} gives the extent of {got}', key=f'XCube|{s_.targets[0].id}[{axis}]', facts=got)
+        for c in sized_calls:
+            ctx.need(len(c.args) >= 2, 'R05.6', site_of(mi, c), 'decode_plane call without a size argument')
+            got = tags(c.args[1], names, local, dec)
+            want = tuple(a for a in AXES if a != axis)
+            ctx.ob('R05.6', site_of(mi, c), f'XCubeMatchingDecoder.decode: decode_plane for projection axis {axis} gets the extents '
+                                            f'of the two orthogonal axes', got == want,
+                   f'{ast.unparse(c)} passes the extents of {got}; the loop coordinates have the {axis} component removed, so '
+                   f'they live on axes {want}: on a lattice with unequal sides the returned coordinates are not qubits '
+                   f'(KeyError) or the wrong ones', key=f'XCube|decode_plane[{axis}]', facts=got)
+
+
 def run(ctx: Ctx) -> None:
     ctx.rule('R05.1', 'allowed_codes names are exported registered code classes; id = class name', floor=14)
     ctx.rule('R05.2', 'decode returns a 2n vector [X-correction | Z-correction] with the decoded halves filled', floor=20)
     ctx.rule('R05.3', 'solver on Hz <-> Z-row syndrome <-> X half (dually Hx); [z|x] swapped back', floor=30)
     ctx.rule('R05.4', 'no scalar conversion of a sized NumPy draw', floor=2)
+    ctx.rule('R05.6', 'XCube matching decoder: every lattice extent belongs to the axis it is used for', floor=12)
     ctx.rule('R05.5', 'nothing memoised per code object depends on what deform() changes on that object', floor=1)
     ctx.trust('PyMatching / ldpc BpOsdDecoder / Support return a solution for the matrix and syndrome they are given',
               'SweepDecoder3D / RotatedSweepDecoder3D return a Z-only BSF vector (decided by C10 R10.2)',
@@ -152,3 +272,5 @@ def run(ctx: Ctx) -> None:
     with ctx.part():
         from .c06 import memo_code_rule
         memo_code_rule(ctx, 'R05.5')
+    with ctx.part():
+        _r056_xcube_axes(ctx)
